@@ -282,7 +282,7 @@ def run(ctx):
     # ---------------------------------------------------------------- R16.c
     for bname, (must, mustnot) in COMPOSITION.items():
         # private grouping helpers inlined; the public blocks stay calls (also when a call passes them a new argument)
-        f = ctx.norm.flat(raw[bname], depth=3, keep=tuple(sorted(r_.qualname for k_, r_ in raw.items() if k_ != bname)))
+        f = ctx.norm.flat(raw[bname], depth=4, keep=tuple(sorted(r_.qualname for k_, r_ in raw.items() if k_ != bname)))
         called = []
         _pos = source_pos(f.node)
         for n in own_nodes(f.node):
@@ -456,6 +456,28 @@ def _solved_pairs(ctx, sg, arc):
     it = C(ctx.norm.xtext(sg, inner.iter).replace(" ", ""))
     defs = ctx.flow.defs(sg)
     ok = False
+    # consecutive pairs of the projected ids: pairwise([so.operation.operation_id for so in machine_schedule])
+    # with the arc drawn between the two elements of the pair
+    xit = ctx.norm.xexpr(sg, inner.iter)
+    if (
+        isinstance(xit, ast.Call) and (dotted(xit.func) or "").split(".")[-1] == "pairwise" and len(xit.args) == 1
+        and isinstance(xit.args[0], (ast.ListComp, ast.GeneratorExp)) and len(xit.args[0].generators) == 1
+        and not xit.args[0].generators[0].ifs and isinstance(xit.args[0].generators[0].target, ast.Name)
+        and C(ast.unparse(xit.args[0].generators[0].iter)) == "machine_schedule"
+        and isinstance(inner.target, ast.Tuple) and len(inner.target.elts) == 2 and all(isinstance(e, ast.Name) for e in inner.target.elts)
+    ):
+        comp = xit.args[0]
+        v = comp.generators[0].target.id
+        direct = isinstance(sg.module.parents.get(sg.module.parents.get(arc)), ast.For)
+        if ast.unparse(comp.elt) == f"{v}.operation.operation_id" and direct and (a, b) == (inner.target.elts[0].id, inner.target.elts[1].id):
+            chk.ok("R16.e", sg.qualname, sg.loc(arc), "one arc per consecutive pair of every machine sequence, by operation id (pairs of the projected ids)")
+        else:
+            chk.violation(
+                "R16.e", sg, arc,
+                f"the arcs ({a}, {b}) over `{ast.unparse(xit)[:70]}` are not one arc from each operation id to the next one of the machine sequence",
+                loc=sg.loc(arc),
+            )
+        return
     if it == "enumerate(machine_schedule)":
         iv = inner.target.elts[0].id
         cur = inner.target.elts[1].id
